@@ -139,6 +139,7 @@ Definition py_inst_keys (T : table) (c : cid) : list name :=
   flat_map (fun k => keys (own (row T k)) ++ keys (self_assigned (row T k))) (mro T c).
 
 (* ---- C3 linearisation (typeobject.c pmerge), by fuel ------------------------------------------ *)
+Definition is_nil (l : list nat) : bool := match l with [] => true | _ => false end.
 Definition in_tail (x : nat) (l : list nat) : bool := match l with [] => false | _ :: t => memb x t end.
 (* first head that is in no tail *)
 Fixpoint c3_pick (cands all : list (list nat)) : option nat :=
@@ -151,7 +152,7 @@ Definition c3_drop (h : nat) (l : list nat) : list nat :=
   match l with x :: t => if Nat.eqb x h then t else l | [] => [] end.
 Inductive c3_result := C3Ok (l : list nat) | C3Inconsistent | C3OutOfFuel.
 Fixpoint c3_merge (fuel : nat) (ls : list (list nat)) : c3_result :=
-  if forallb (fun l => match l with [] => true | _ => false end) ls then C3Ok [] else
+  if forallb is_nil ls then C3Ok [] else
   match fuel with
   | 0 => C3OutOfFuel
   | S f =>
@@ -163,16 +164,17 @@ Fixpoint c3_merge (fuel : nat) (ls : list (list nat)) : c3_result :=
                   end
       end
   end.
+Fixpoint c3_collect (rec : cid -> c3_result) (bs : list cid) : option (list (list nat)) :=
+  match bs with
+  | [] => Some []
+  | b :: r => match rec b, c3_collect rec r with
+              | C3Ok l, Some ls => Some (l :: ls)
+              | _, _ => None
+              end
+  end.
+(* L[C] = C :: merge (L[B1], ..., L[Bn], [B1; ...; Bn]) *)
 Definition c3_step (rec : cid -> c3_result) (i : cid) (k : cls) : c3_result :=
-  let fix collect (bs : list cid) : option (list (list nat)) :=
-    match bs with
-    | [] => Some []
-    | b :: r => match rec b, collect r with
-                | C3Ok l, Some ls => Some (l :: ls)
-                | _, _ => None
-                end
-    end in
-  match collect (bases k) with
+  match c3_collect rec (bases k) with
   | None => C3Inconsistent
   | Some ls => match c3_merge (S (length (concat ls) + length (bases k))) (ls ++ [bases k]) with
                | C3Ok r => C3Ok (i :: r)
@@ -259,3 +261,8 @@ Definition ex_table : table :=
     mkCls [1] [(1, (1, 6, 8))]%N [(6, (1, 8, 8)); (6, (1, 9, 8))]%N;
     mkCls [0] [(7, (1, 10, 4))]%N [];
     mkCls [2; 3] [(2, (1, 12, 4))]%N [(5, (1, 13, 8))]%N ].
+
+(* F31: class C: alpha = 1 (1,2,4); def run(self): self.alpha = 2 (1,4,8) *)
+Definition f31_table : table :=
+  [ mkCls [] [] [];
+    mkCls [] [(1, (1, 2, 4))]%N [(1, (1, 4, 8))]%N ].
